@@ -106,11 +106,19 @@ func (rt *Transfer) Do(c *rsyncwire.Conn, fileList []*File, noReport bool) (*rsy
 	// to ensure we don’t block on the generator when the receiver returns an
 	// error, or vice versa (instead, return and let the goroutine finish in the
 	// background).
+	genDone, recvDone := make(chan struct{}), make(chan struct{})
+	rt.goroutines = append(rt.goroutines, genDone, recvDone)
 	eg.Go(func() error {
-		return waitFor(ctx, func() error { return rt.GenerateFiles(fileList) })
+		return waitFor(ctx, func() error {
+			defer close(genDone)
+			return rt.GenerateFiles(fileList)
+		})
 	})
 	eg.Go(func() error {
-		return waitFor(ctx, func() error { return rt.RecvFiles(fileList) })
+		return waitFor(ctx, func() error {
+			defer close(recvDone)
+			return rt.RecvFiles(fileList)
+		})
 	})
 	if err := eg.Wait(); err != nil {
 		return nil, err
